@@ -271,7 +271,7 @@ def bounded_emitted_models_random(tier, seed):
     import shutil
     from props import corpus, gen_harness as G
     from pyopenapi_gen.core.utils import NameSanitizer
-    docs = [(n, d) for n, f, d in corpus.shapes(tier, seed) if f.get("random_doc")]
+    docs = [(n, d) for n, f, d in corpus.shapes(tier, seed) if f.get("random_doc") or (f.get("schemas") and "collision" not in n and "graph" not in n)]
     failures, n = [], 0
     for name, d in docs:
         schemas = d["components"]["schemas"]
@@ -280,6 +280,15 @@ def bounded_emitted_models_random(tier, seed):
             if G.generate(d, root, "cli") is not None:
                 continue
             models = _emitted_models(os.path.join(root, "cli"))
+            # every named schema — object, enum, primitive or container alias, union — is represented: a class or an alias under its class name
+            for sname, sch in schemas.items():
+                if not isinstance(sch, dict):
+                    continue
+                n += 1
+                cname = NameSanitizer.sanitize_class_name(sname)
+                if cname not in models and cname not in models.get("__aliases__", {}):
+                    failures.append({"id": f"bounded:emitted-model-random:{name}:unrepresented", "detail": f"{name}: named schema {sname} has neither a class nor an alias {cname} in models/",
+                                     "input": {"document": name, "schema": sname, "definition": sch}})
             for sname, sch in schemas.items():
                 if not isinstance(sch, dict) or not (sch.get("properties") or sch.get("allOf")):
                     continue
